@@ -1008,14 +1008,77 @@ func init() {
 			ruleHdrDecoder(c, h, "graph.Sparse6Decode")
 			ds := ruleDegSync(c, inFiles("encoding.go"))
 			ds.MinInst = 1
-			return []*RuleResult{h, ruleSextet(c), ruleEdgeByte(c, "graph"), ds}
+			return []*RuleResult{h, ruleSextet(c), ruleEdgeByte(c, "graph"), ds, ruleUwrap(c, inFiles("encoding.go"))}
 		},
 		controls: func(ctl *Ctx) []*RuleResult {
 			h := &RuleResult{Rule: "HDR"}
 			ruleHdrEncoder(ctl, h, "hdrctl.BadEncode", 0, "")
 			h2 := &RuleResult{Rule: "HDR"}
 			ruleHdrDecoder(ctl, h2, "hdrctl.BadDecode")
-			return []*RuleResult{h, h2}
+			return []*RuleResult{h, h2, ruleUwrap(ctl, inFiles("hdrctl.go"))}
 		},
 	})
+}
+
+// ruleUwrap: a counter of unsigned type that lives across loop iterations must not be started (or
+// stepped) by a subtraction that can go below zero: it becomes a huge count and the loop that
+// waits for it to reach zero reads the rest of the input as something else. Only subtractions
+// whose result flows (through phis) into a loop-carried variable are judged; a wrapped
+// intermediate that is consumed at once is a different question.
+func ruleUwrap(c *Ctx, files func(string) bool) *RuleResult {
+	r := &RuleResult{Rule: "UWRAP", Doc: "no loop-carried unsigned counter of a codec is set by a subtraction that can wrap below zero", MinInst: 1}
+	n := 0
+	for _, fn := range c.Funcs {
+		if fn.Synthetic != "" || fn.Blocks == nil || !files(c.Fset.Position(fn.Pos()).Filename) {
+			continue
+		}
+		n++
+		loops := loopsOf(fn)
+		var P *Prover
+		for _, b := range fn.Blocks {
+			for _, in := range b.Instrs {
+				bo, ok := in.(*ssa.BinOp)
+				if !ok || bo.Op != token.SUB || !isUnsigned(bo.Type()) || !isInt(bo.Type()) {
+					continue
+				}
+				// does the result reach a phi at a loop header (directly or through other phis)?
+				carried := false
+				seen := map[ssa.Value]bool{}
+				var walk func(v ssa.Value, depth int)
+				walk = func(v ssa.Value, depth int) {
+					if seen[v] || depth > 4 || v.Referrers() == nil {
+						return
+					}
+					seen[v] = true
+					for _, ref := range *v.Referrers() {
+						if ph, ok := ref.(*ssa.Phi); ok {
+							if loops[ph.Block()] != nil {
+								carried = true
+							}
+							walk(ph, depth+1)
+						}
+					}
+				}
+				walk(bo, 0)
+				if !carried {
+					continue
+				}
+				if P == nil {
+					P = NewProver(c, fn)
+				}
+				src := c.srcAt(bo.Pos())
+				if src == "" {
+					src = valName(bo)
+				}
+				r.inst("%s: loop-carried %s", c.short(fn), src)
+				ok2 := P.Prove(P.poly(bo.Y).add(P.poly(bo.X), -1), b) // Y - X <= 0
+				r.oblig(ok2)
+				if !ok2 {
+					r.find(c.short(fn)+":counter "+src+" may wrap", c.instrPos(bo), "%s keeps %s in an unsigned loop-carried counter, but %s >= %s is not established there: for the smallest input value the counter wraps to a huge number instead of going to zero", c.short(fn), src, P.showTerm(P.poly(bo.X)), P.showTerm(P.poly(bo.Y)))
+				}
+			}
+		}
+	}
+	r.inst("%d codec functions scanned for loop-carried unsigned subtractions", n)
+	return r
 }
